@@ -399,3 +399,72 @@ def effective_functions(repo, version: str, adapter: str):
                                 changed = True
                             break
     return list(picked.values())
+
+
+# ---------------------------------------------------------------------------------------------- basic-block nodes as keys
+def node_key_uses(repo, module_prefixes):
+    """BasicBlockNode compares and hashes by its index only, i.e. it identifies a block within ONE code object.
+    Yields (ast node, ok: bool, description) for every place in the given modules where a node is used as the key of a
+    mapping / member of a set: ok iff the container is restricted to one code object (a comprehension filtered by
+    code_object_id) or the key carries the code object id; a container stored on `self` that is keyed by a bare node is not."""
+    for mname, mod in repo.modules.items():
+        if not mname.startswith(tuple(module_prefixes)):
+            continue
+        for qn, fn in mod.functions.items():
+            typed = set()
+            for a in [*fn.args.posonlyargs, *fn.args.args, *fn.args.kwonlyargs]:
+                if a.annotation is not None and ("BasicBlockNode" in norm(a.annotation) or "ProgramNode" in norm(a.annotation)):
+                    typed.add(a.arg)
+            for n in own_nodes(fn):
+                if isinstance(n, ast.AnnAssign) and isinstance(n.target, ast.Name) and "BasicBlockNode" in norm(n.annotation):
+                    typed.add(n.target.id)
+                if isinstance(n, ast.Assign) and isinstance(n.value, ast.Call) and len(n.targets) == 1:
+                    # typed through the return annotation of the called function / method (same class or same module)
+                    callee = None
+                    cname = norm(n.value.func)
+                    cls = getattr(fn, "_class", None)
+                    if cname.startswith("self.") and cls is not None:
+                        callee = repo.methods(cls).get(cname[5:])
+                    elif cname in mod.functions:
+                        callee = mod.functions[cname]
+                    elif cname.endswith((".get_basic_block_node", ".first_basic_block_node")):
+                        typed.update(t.id for t in ast.walk(n.targets[0]) if isinstance(t, ast.Name))
+                    ret = norm(callee.returns) if callee is not None and callee.returns is not None else ""
+                    if "BasicBlockNode" in ret:
+                        tgt = n.targets[0]
+                        if isinstance(tgt, ast.Name):
+                            typed.add(tgt.id)
+                        elif isinstance(tgt, ast.Tuple) and isinstance(callee.returns, ast.Subscript) and isinstance(callee.returns.slice, ast.Tuple):
+                            for t, ann in zip(tgt.elts, callee.returns.slice.elts):
+                                if isinstance(t, ast.Name) and "BasicBlockNode" in norm(ann):
+                                    typed.add(t.id)
+                if isinstance(n, (ast.For, ast.comprehension)) and norm(n.iter).endswith(".basic_block_nodes"):
+                    for t in ast.walk(n.target):
+                        if isinstance(t, ast.Name):
+                            typed.add(t.id)
+
+            def is_node(e):
+                return (isinstance(e, ast.Name) and e.id in typed) or (isinstance(e, ast.Attribute) and e.attr == "node")
+
+            def carries_code_object(e):
+                return isinstance(e, ast.Tuple) and any("code_object" in norm(x) for x in e.elts)
+
+            for n in own_nodes(fn):
+                if isinstance(n, ast.DictComp) and is_node(n.key):
+                    filt = any("code_object_id" in norm(c) and isinstance(c, ast.Compare) for g in n.generators for c in g.ifs)
+                    yield n, filt, f"{qn}: mapping keyed by `{norm(n.key)}` built over `{norm(n.generators[0].iter)[:50]}`" + ("" if filt else " without restricting the entries to one code object")
+                if isinstance(n, (ast.SetComp,)) and is_node(n.elt):
+                    filt = any("code_object_id" in norm(c) for g in n.generators for c in g.ifs)
+                    yield n, filt, f"{qn}: set of `{norm(n.elt)}`" + ("" if filt else " over several code objects")
+                key = cont = None
+                if isinstance(n, ast.Subscript) and norm(n.value).startswith("self."):
+                    key, cont = n.slice, n.value
+                elif isinstance(n, ast.Call) and isinstance(n.func, ast.Attribute) and n.func.attr in ("get", "setdefault", "pop", "add", "discard") and norm(n.func.value).startswith("self.") and n.args:
+                    key, cont = n.args[0], n.func.value
+                elif isinstance(n, ast.Compare) and len(n.ops) == 1 and isinstance(n.ops[0], (ast.In, ast.NotIn)) and norm(n.comparators[0]).startswith("self."):
+                    key, cont = n.left, n.comparators[0]
+                if key is not None and (is_node(key) or (isinstance(key, ast.Tuple) and any(is_node(x) for x in key.elts))):
+                    if "graph" in norm(cont) or "_graph" in norm(cont):
+                        continue  # a graph holds the nodes of one code object
+                    ok = carries_code_object(key)
+                    yield n, ok, f"{qn}: `{norm(cont)}` keyed by `{norm(key)}`" + ("" if ok else " - the container outlives one code object, blocks with the same index of different code objects share the entry")
